@@ -211,6 +211,9 @@ fn one_bpe(out: &mut Out, spec: &Spec, tag: &str) {
                             ));
                         }
                     }
+                    None if spec.vocab.is_some() && spec.eow.is_some() => {
+                        out.bucket("eow_token_missing_from_supplied_vocab(oracle n/a)");
+                    }
                     None => {
                         if fail.is_none() {
                             fail = Some(format!("reference pieces {:?} for {} not all in the vocabulary", r_last, show_tok(p)));
@@ -420,10 +423,17 @@ fn random_bpe(out: &mut Out, rng: &mut Rng) {
     let plain: Vec<String> = avail.iter().filter(|t| !t.contains('<')).cloned().collect();
     let np = 1 + rng.usize_below(6);
     let pieces: Vec<String> = (0..np).map(|_| random_piece(rng, &alpha, &plain)).collect();
-    // supplied vocabulary (never together with the end-of-word suffix: the `last + 256` shortcut of
-    // `encode_piece` presumes the layout of `build_vocab`)
-    let vocab = if eow.is_none() && rng.chance(3, 10) {
+    // supplied vocabulary; with an end-of-word suffix it lists the `{letter}{suffix}` tokens under
+    // ids unrelated to `id(letter) + 256` (sometimes it omits them: fallback path, oracle n/a)
+    let vocab = if rng.chance(3, 10) {
         let mut keys: Vec<String> = alpha.iter().map(|c| c.to_string()).collect();
+        if let Some(sfx) = &eow {
+            if !rng.chance(1, 10) {
+                for c in &alpha {
+                    keys.push(format!("{c}{sfx}"));
+                }
+            }
+        }
         for (a, b) in &merges {
             let m = format!("{a}{b}");
             if !keys.contains(&m) {
@@ -438,7 +448,7 @@ fn random_bpe(out: &mut Out, rng: &mut Rng) {
         let mut ids: Vec<u32> = (0..keys.len() as u32 * 2).collect();
         rng.shuffle(&mut ids);
         let mut listed: Vec<(String, u32)> = keys.into_iter().zip(ids).collect();
-        tag = "random_supplied_vocab";
+        tag = if eow.is_some() { "random_supplied_vocab_eow" } else { "random_supplied_vocab" };
         if rng.chance(1, 8) && listed.len() > 1 {
             let i = rng.usize_below(listed.len());
             let j = rng.usize_below(listed.len());
@@ -497,6 +507,14 @@ fn run(args: &Args) {
     let mut coll = s(&[("a", "c")], &["bc", "ac"]);
     coll.vocab = Some(vec![("a".into(), 0), ("b".into(), 0), ("c".into(), 1), ("ac".into(), 2)]);
     one_bpe(&mut out, &coll, "witness");
+    // supplied vocabulary whose end-of-word tokens are not numbered `id(letter) + 256`
+    let mut eowv = s(&[("a", "b</w>")], &["ab", "ba", "a"]);
+    eowv.eow = Some("</w>".into());
+    eowv.vocab = Some(vec![
+        ("a".into(), 0), ("b".into(), 1), ("c".into(), 2),
+        ("a</w>".into(), 3), ("b</w>".into(), 4), ("c</w>".into(), 5), ("ab</w>".into(), 6),
+    ]);
+    one_bpe(&mut out, &eowv, "witness");
 
     if args.thorough {
         exhaustive(&mut out, 3, 6, "exhaustive_abc");
